@@ -361,7 +361,9 @@ class Backtest(object):
         # turnover is defined as min outlay / nav
         mrg = pd.DataFrame({"outlay": min_outlay, "nav": s.values})
 
-        return mrg["outlay"] / mrg["nav"]
+        # a tree without a single security has no outlays at all: no turnover,
+        # rather than an undefined one
+        return mrg["outlay"].fillna(0.0) / mrg["nav"]
 
 
 class Result(ffn.GroupStats):
